@@ -328,7 +328,7 @@ def evaluate(ctx, cases, with_model=True):
     impl = common.run_harness("c34", cases)
     model = None
     if with_model:
-        model = common.coq_eval("C34", IMPORTS, [model_expr(c) for c in cases], shard_size=max(50, (len(cases) + 15) // 16), timeout=3000)
+        model = common.coq_eval("C34", IMPORTS, [model_expr(c) for c in cases], shard_size=max(50, (len(cases) + (7 if len(cases) < 5000 else 15)) // (8 if len(cases) < 5000 else 16)), timeout=3000)
     stats = {"kinds": {}, "wf_parts": 0, "parts_v1": 0, "parts_v2": 0, "with_vendor": 0, "with_version": 0, "with_reason": 0,
              "clean_uri": 0, "wf_inst": 0, "inst_nonzero": 0, "thumbnail_inst": 0, "parse_some": 0, "parse_none": 0, "unspecified": 0}
     distinct = set()
@@ -417,7 +417,7 @@ def run(ctx):
     if ctx.replay:
         cases = [ctx.replay["case"]] if "case" in ctx.replay else [d["case"] for d in ctx.replay.get("disagreements", [])]
     else:
-        cases = build_cases(ctx, 150 if ctx.quick() else 1500)
+        cases = build_cases(ctx, 100 if ctx.quick() else 1500)
     stats, distinct = evaluate(ctx, cases)
     ctx.coverage.update({
         "evaluations": len(cases), "distinct_nontrivial": distinct,
